@@ -108,6 +108,9 @@ TernRow(pos, a, b) ==
   IN [k |-> "truthtern", pos |-> pos, prog |-> prog, fns |-> <<>>, vars |-> <<>>,
       runs |-> <<One(TRUE), One(FALSE), One(TRUE)>>, done |-> TRUE]
 
+Edge == << F(1, 2000000000), F(-1, 2000000000), F(1, 1000000000), F(1, 1000000), F(-1, 1000000), F(2000000000, 1), I(2000000000), I(-2000000000),
+           F(1, 1024), F(-1, 1024) >>
+
 Init ==
   \/ \E po \in 1..Len(Positions), a \in 1..Len(TSmall) :
        row = [k |-> "n0", pos |-> Positions[po], a |-> a, done |-> FALSE]
@@ -119,7 +122,9 @@ Init ==
 Next ==
   /\ ~row.done
   /\ \/ /\ row.k = "t0"
-        /\ \E i \in 1..NV : ProvOK(row.prov, Vals[i]) /\ row' = RowFor(row.pos, row.prov, Vals[i])
+        /\ \/ \E i \in 1..NV : ProvOK(row.prov, Vals[i]) /\ row' = RowFor(row.pos, row.prov, Vals[i])
+           \* numbers next to zero and far from it: a positive number is truthy however small, a negative one is not
+           \/ \E i \in 1..Len(Edge) : ProvOK(row.prov, Edge[i]) /\ row' = RowFor(row.pos, row.prov, Edge[i])
      \/ /\ row.k = "p0"
         /\ \E b \in 1..NR, neg \in BOOLEAN : row' = PairRowN(row.op, Red[row.a], Red[b], neg)
      \/ /\ row.k = "n0"
